@@ -1,5 +1,6 @@
 import Driver.Util
 import MpcVerif.Model.Mpcl
+import MpcVerif.Model.MpclSsa
 
 /-!
 Line-protocol handler of property C03.
@@ -157,8 +158,75 @@ def splitCounter : List Nat → Nat → List Nat
   | [], _ => []
   | w :: ws, c => c % 2 ^ w :: splitCounter ws (c >>> w)
 
+/-! ### SSA-level lines: `c03 SSA <inputs> ( SSA ( IN ( id bits )* ) step* )`
+(grammar in harness/cmd/c03/ssadump.go), `c03 SSASKIP <reason>` -/
+
+open Mpc.Mpcl.Ssa in
+def toSOp : String → Option SOp
+  | "iadd" => some .add | "uadd" => some .add | "isub" => some .sub | "usub" => some .sub
+  | "imult" => some .mul | "umult" => some .mul | "udiv" => some .udiv | "umod" => some .umod
+  | "idiv" => some .idiv | "imod" => some .imod | "band" => some .band | "bor" => some .bor
+  | "bxor" => some .bxor | "bclr" => some .bclr | "concat" => some .concat | "lshift" => some .lshift
+  | "rshift" => some .rshift | "srshift" => some .srshift | "slice" => some .slice | "index" => some .index
+  | "ilt" => some .ilt | "ult" => some .ult | "ile" => some .ile | "ule" => some .ule
+  | "igt" => some .igt | "ugt" => some .ugt | "ige" => some .ige | "uge" => some .uge
+  | "eq" => some .eq | "neq" => some .neq | "and" => some .land | "or" => some .lor | "not" => some .lnot
+  | "mov" => some .mov | "smov" => some .smov | "amov" => some .amov | "phi" => some .phi
+  | "ret" => some .ret | _ => none
+
+open Mpc.Mpcl.Ssa in
+def toSArg : SExp → Option SArg
+  | .list [.atom "v", .atom id, .atom b] => do some (.var (← id.toNat?) (← b.toNat?))
+  | .list [.atom "c", .atom v, .atom own, .atom al, .atom sg, .atom b] => do
+    some (.const (← natOfHex v) (← own.toNat?) (← al.toNat?) (sg == "s") (← b.toNat?))
+  | .list [.atom "p", .atom v, .atom b] => do some (.pat (← natOfHex v) (← b.toNat?))
+  | .list [.atom "k", .atom n] => do some (.k (← n.toNat?))
+  | _ => none
+
+def toIdBits : SExp → Option (Nat × Nat)
+  | .list [.atom id, .atom b] => do some (← id.toNat?, ← b.toNat?)
+  | _ => none
+
+open Mpc.Mpcl.Ssa in
+def toSInstr : SExp → Option SInstr
+  | .list [.atom op, .list args, out] => do
+    let o ← toSOp op
+    let as ← args.mapM toSArg
+    match out with
+    | .atom "-" => some ⟨o, as, none⟩
+    | e => some ⟨o, as, some (← toIdBits e)⟩
+  | _ => none
+
+open Mpc.Mpcl.Ssa in
+def toSsa : SExp → Option (List (Nat × Nat) × List SInstr)
+  | .list (.atom "SSA" :: .list (.atom "IN" :: ins) :: steps) => do
+    some (← ins.mapM toIdBits, ← steps.mapM toSInstr)
+  | _ => none
+
+open Mpc.Mpcl.Ssa in
+def ssaOne (ins : List (Nat × Nat)) (steps : List SInstr) (args : List Nat) : String :=
+  match ssaEval (Array Nat) ins steps args with
+  | some rs => ",".intercalate (rs.map fun (v, _) => hexOfNat v)
+  | none => "E"
+
+def inputTuples (inp : String) (ws : List Nat) : Option (List (List Nat)) :=
+  if inp == "all" then
+    let total := ws.foldl (· + ·) 0
+    if total > 20 then none else some ((List.range (2 ^ total)).map fun c => splitCounter ws c)
+  else (inp.splitOn ";").mapM fun t => (t.splitOn ",").mapM natOfHex
+
+def handleSsa (inp : String) (toks : List String) : String :=
+  match (parseSExp toks).bind toSsa with
+  | none => "bad-ssa"
+  | some (ins, steps) =>
+    match inputTuples inp (ins.map (·.2)) with
+    | none => "bad-input"
+    | some tuples => ";".intercalate (tuples.map (ssaOne ins steps))
+
 def handle (args : List String) : String :=
   match args with
+  | "SSASKIP" :: _ => "skip"
+  | "SSA" :: inp :: toks => handleSsa inp toks
   | inp :: toks =>
     match (parseSExp toks).bind toProg with
     | none => "bad-program"
@@ -166,17 +234,9 @@ def handle (args : List String) : String :=
       match P[main]? with
       | none => "bad-program"
       | some fn =>
-        if inp == "all" then
-          let ws := fn.params.map fun p => p.2.bits
-          let total := ws.foldl (· + ·) 0
-          if total > 20 then "bad-op" else
-          ";".intercalate ((List.range (2 ^ total)).map fun c => evalOne P main (splitCounter ws c))
-        else
-          let tuples := inp.splitOn ";"
-          ";".intercalate (tuples.map fun t =>
-            match (t.splitOn ",").mapM natOfHex with
-            | some vs => evalOne P main vs
-            | none => "bad-input")
+        match inputTuples inp (fn.params.map fun p => p.2.bits) with
+        | none => "bad-input"
+        | some tuples => ";".intercalate (tuples.map (evalOne P main))
   | _ => "bad-op"
 
 end Drv.C03
